@@ -122,3 +122,21 @@ def length_guard_rule(P, rep, rid, paths=None, R=None):
                           path=[R.header_fn.short])
     else:
         rep.ok(rid, R.header_fn.short, {'paths': len(paths)})
+
+def encoded_piecewise(evs, content):
+    """An encode() in the writer whose receiver is a piece of the text (an element of a split, a slice) rather than
+    the whole content: every such piece gets its own byte order mark and multi-byte sequences are cut."""
+    from sa.props.reader_rules import src_chain
+    for e in evs:
+        if e.kind != 'encode':
+            continue
+        r = e.data['recv']
+        if not isinstance(r, Unk) or r is content:
+            continue
+        chain = src_chain(r)
+        if not any(x is content for x in chain):
+            continue
+        if any(x.src and (x.src[0] in ('elem', 'summary-elem', 'slice') or (x.src[0] == 'method' and x.src[2] in ('split', 'splitlines', 'partition')))
+               for x in chain):
+            return e
+    return None
